@@ -148,7 +148,7 @@ def Var.kind : Var → HKind
   | .cur _ => .str
   | .tmp k => k
 
-structure St where
+@[ext] structure St where
   next : Nat                     -- objects created so far; ids are 0 .. next-1
   kind : Nat → Kind
   alive : Nat → Bool
